@@ -262,7 +262,8 @@ theorem generated_process_sites :
 
 /-- every regenerated stage: has a dispatch loop, registers every started
 process in the container it polls (with the matching winnow function), drains
-after the loop, and merges by a recognised discipline -/
+after the loop, merges by a recognised discipline, and (dict stages) registers
+its workers under keys that are distinct by construction -/
 theorem generated_stages_ok : ∀ s ∈ CTM.Generated.stages, s.ok = true := by decide
 
 /-- "the other stages leave no file at the requested output location that a
@@ -294,6 +295,7 @@ theorem generated_stage_sound (st : Stage) (hst : st ∈ CTM.Generated.stages) (
     | .spin s => writes st.prog = [] ∨ s.file.length < (writes st.prog).length := by
   have hok := generated_stages_ok st hst
   simp only [Stage.ok, Bool.and_eq_true] at hok
+  replace hok := hok.1
   have hinc := generated_failure_incomplete st hst
   have hout := skeleton_failure_output st.container st.prog env sched
   cases h : exec st.container env st.prog { sched := sched } with
